@@ -353,6 +353,9 @@ func (l *Linter) LintFiles(filepaths []string, project *Project) ([]*Error, erro
 			// Before entering goroutine, resolve project instance.
 			p, err := l.projects.At(w.path)
 			if err != nil {
+				// Do not leave the goroutines (and their processes) already started for the previous files
+				eg.Wait() //nolint:errcheck
+				proc.wait()
 				return nil, err
 			}
 			proj = p
